@@ -52,6 +52,8 @@ Inductive ev :=
 | ETrigger                 (* TriggerBlockSynchronize *)
 | ESuccess                 (* the pending block's download completes: recorded as processed *)
 | EFail                    (* a download attempt fails (no node / dropped / wrong block): retried *)
+| ELate                    (* the completion callback of a download thread of an EARLIER block
+                              arrives (its thread ended late): it is not the pending request's *)
 | ETick.                   (* the 10 s poll of the waiting round *)
 
 Record sst := mkS {
@@ -98,6 +100,7 @@ Definition sstep (start : nat) (s : sst) (e : ev) : sst * list lg :=
       | _ => (s, [])
       end
   | EFail => (s, [])
+  | ELate => (s, [])
   | ETick =>
       match s_mode s with
       | Some ((h, x) :: r) =>
